@@ -350,7 +350,7 @@ typename small_vector<T,S>::iterator small_vector<T, S>::append(IT b, IT e)
 
   size_ += n;
 
-  return end();
+  return end() - n;  // the first element appended, like `std::vector::insert`
 }
 
 template<class T, std::size_t S>
